@@ -521,6 +521,8 @@ def _gen_blt_text(rng, n):
         for _ in range(rng.choice([1, 1, 1, 2])):
             text, kind = IO.mutate_text(rng, text)
             kinds.append(kind)
+        if IO.huge_header(text):
+            continue
         yield {'op': 'blt_text', 'text': text, '_tags': ['blt_text'] + ['mut_' + x for x in kinds], '_origin': '+'.join(kinds)}
 
 
@@ -759,6 +761,8 @@ def _gen_stv_text(rng, n):
             else:
                 text, kind = IO.mutate_text(rng, text)
             kinds.append(kind)
+        if IO.huge_header(text):
+            continue
         yield {'op': 'stv_text', 'text': text, '_tags': ['stv_text'] + ['mut_' + x for x in kinds], '_origin': '+'.join(kinds)}
 
 
